@@ -663,9 +663,12 @@ Section Create.
   Qed.
 
   (* the run to completion, as create_backup performs it *)
-  Lemma create_backup_complete m f2 m2 :
+  Lemma fresh_not_exists : exists_ f0 (backup_dir b) = false.
+  Proof. unfold exists_. rewrite (fresh _ (under_dir_self b)). reflexivity. Qed.
+
+  Lemma create_backup_complete fx m f2 m2 :
     mgr_get m b = None ->
-    create_backup m f0 files b ts = (f2, m2, Ok true) ->
+    create_backup fx m f0 files b ts = (f2, m2, Ok true) ->
     mgr_get m2 b = Some (keys_of files []) /\
     read f2 (backup_lock b) = Some (dump (keys_of files []) ts) /\
     (forall p, under (backup_dir b) p = false -> lookup f2 p = lookup f0 p) /\
@@ -673,6 +676,7 @@ Section Create.
       exists c, read f0 f = Some c /\ read f2 (backup_root b ++ f) = Some c.
   Proof.
     intros Hm Hc. unfold create_backup in Hc. rewrite Hm in Hc.
+    rewrite fresh_not_exists, andb_false_r in Hc.
     destruct (exec f0 (copies_part b files)) as [f1 r] eqn:Hex.
     destruct r as [[]|x]; [|inversion Hc].
     pose proof (fresh _ (under_dir_lock b)) as Hl0.
@@ -693,10 +697,96 @@ Section Create.
   Qed.
 End Create.
 
-(* never overwritten: a listed name makes create_backup a no-op *)
-Lemma never_overwritten_lemma m f files b ts ks :
-  mgr_get m b = Some ks -> create_backup m f files b ts = (f, m, Ok false).
+(* never overwritten: a listed name makes create_backup a no-op (both versions) *)
+Lemma never_overwritten_listed fx m f files b ts ks :
+  mgr_get m b = Some ks -> create_backup fx m f files b ts = (f, m, Ok false).
 Proof. intro H. unfold create_backup. rewrite H. reflexivity. Qed.
+
+(* the repaired code: whatever the manager's dictionary says, a name that exists on
+   disk (as a directory, a file, a half-made backup) is refused without any effect *)
+Lemma never_overwritten_lemma m f files b ts :
+  exists_ f (backup_dir b) = true -> create_backup true m f files b ts = (f, m, Ok false).
+Proof.
+  intro H. unfold create_backup. destruct (mgr_get m b); [reflexivity|]. rewrite H. reflexivity.
+Qed.
+
+Lemma check_one_ok_dir f b rec : check_one f b = Ok rec -> exists_ f (backup_dir b) = true.
+Proof.
+  unfold check_one, isdir, exists_.
+  destruct (lookup f (backup_dir b)) as [[|c]|]; simpl; try discriminate. reflexivity.
+Qed.
+
+(* ... in particular every backup that a fresh manager would list, for ANY (possibly
+   stale) manager object [m] *)
+Lemma never_overwritten_listed_on_disk m f files b ts mdisk rec :
+  get_backups f = Ok mdisk -> mgr_get mdisk b = Some rec ->
+  create_backup true m f files b ts = (f, m, Ok false).
+Proof.
+  intros Hg Hm. apply never_overwritten_lemma.
+  eapply check_one_ok_dir. eapply get_backups_inv; eassumption.
+Qed.
+
+(* existence is monotone along a trace and its crash points *)
+Lemma apply_exists e f f' p : apply e f = Ok f' -> exists_ f p = true -> exists_ f' p = true.
+Proof.
+  unfold exists_. intros Ha Hp. destruct e as [q|s d|q c]; simpl in Ha.
+  - destruct (lookup f q) as [[|x]|] eqn:E; inversion Ha; subst; [exact Hp|].
+    rewrite lookup_set. destruct (path_eqb q p); [reflexivity | exact Hp].
+  - destruct (lookup f s) as [[|cs]|]; try discriminate.
+    destruct (lookup f d) as [[|x]|]; inversion Ha; subst;
+      rewrite lookup_set; destruct (path_eqb d p); try reflexivity; exact Hp.
+  - destruct (lookup f q) as [[|x]|]; inversion Ha; subst;
+      rewrite lookup_set; destruct (path_eqb q p); try reflexivity; exact Hp.
+Qed.
+
+Lemma partial_exists e k f f' p : partial e k f = Some f' -> exists_ f p = true -> exists_ f' p = true.
+Proof.
+  unfold exists_. intros Ha Hp. destruct e as [q|s d|q c]; simpl in Ha.
+  - discriminate.
+  - destruct (lookup f s) as [[|cs]|]; try discriminate.
+    destruct (lookup f d) as [[|x]|]; try discriminate;
+      destruct (k <? length cs); inversion Ha; subst;
+      rewrite lookup_set; destruct (path_eqb d p); try reflexivity; exact Hp.
+  - destruct (lookup f q) as [[|x]|]; try discriminate;
+      destruct (k <? length c); inversion Ha; subst;
+      rewrite lookup_set; destruct (path_eqb q p); try reflexivity; exact Hp.
+Qed.
+
+Lemma crash_exists es : forall f i k p,
+  exists_ f p = true -> exists_ (crash f es i k) p = true.
+Proof.
+  induction es as [|e es IH]; intros f i k p Hp; simpl; [exact Hp|].
+  destruct i as [|i].
+  - destruct k as [n|]; [|exact Hp].
+    destruct (partial e n f) as [f1|] eqn:Ep; [|exact Hp]. eapply partial_exists; eassumption.
+  - destruct (apply e f) as [f1|x] eqn:Ea; [|exact Hp].
+    apply IH. eapply apply_exists; eassumption.
+Qed.
+
+Lemma crash_cons_S e r f f1 i k :
+  apply e f = Ok f1 -> crash f (e :: r) (S i) k = crash f1 r i k.
+Proof. intro H. simpl. rewrite H. reflexivity. Qed.
+
+(* After ANY crash of create_backup, a later create_backup of the same name by ANY
+   manager object (the repaired code) either finds the untouched initial state
+   (nothing had happened yet) or refuses without any effect: a half-made
+   backups/<name> is never completed, overwritten or made valid behind the
+   constructor's back. *)
+Lemma crash_then_create_lemma b files ts f0 :
+  (forall p, under (backup_dir b) p = true -> lookup f0 p = None) ->
+  forall i k m files' ts',
+    let fc := crash f0 (create_effects b files ts) i k in
+    fc = f0 \/ create_backup true m fc files' b ts' = (fc, m, Ok false).
+Proof.
+  intros Hfresh i k m files' ts' fc. subst fc.
+  destruct i as [|i].
+  - left. unfold create_effects. simpl. destruct k; reflexivity.
+  - right. apply never_overwritten_lemma.
+    unfold create_effects. cbn [app].
+    rewrite (crash_cons_S _ _ f0 (set (backup_dir b) Dir f0)).
+    + apply crash_exists. unfold exists_. rewrite lookup_set_same. reflexivity.
+    + cbn [apply]. rewrite (Hfresh _ (under_dir_self b)). reflexivity.
+Qed.
 
 (* ------------------------------------------------------------------ *)
 (* restore_backup                                                      *)
@@ -805,18 +895,18 @@ Proof.
   - simpl. repeat split; [apply under_dir_root | exact Hof].
 Qed.
 
-Lemma restore_identical_lemma b files ts f0 m f1 m1 us f3 :
+Lemma restore_identical_lemma fx b files ts f0 m f1 m1 us f3 :
   (forall p, under (backup_dir b) p = true -> lookup f0 p = None) ->
   Forall (fun f => under (backup_dir b) f = false) files ->
   Forall valid_file files -> json_ok ts ->
   mgr_get m b = None ->
-  create_backup m f0 files b ts = (f1, m1, Ok true) ->
+  create_backup fx m f0 files b ts = (f1, m1, Ok true) ->
   Forall (fun u => under (backup_dir b) (utarget u) = false) us ->
   restore_backup m1 (fold_left (fun f u => uapply u f) us f1) b [] = (f3, Ok tt) ->
   forall f, In f files -> exists c, read f0 f = Some c /\ read f3 f = Some c.
 Proof.
   intros Hfresh Hout Hval Hts Hm Hc Hus Hr f Hf.
-  destruct (create_backup_complete b files ts f0 Hfresh Hout Hval m f1 m1 Hm Hc)
+  destruct (create_backup_complete b files ts f0 Hfresh Hout Hval fx m f1 m1 Hm Hc)
     as (Hm1 & _ & _ & Hfiles).
   unfold restore_backup in Hr. rewrite Hm1 in Hr.
   destruct (keys_of files []) as [|k0 ks0] eqn:Ek; [discriminate|]. rewrite <- Ek in Hr.
@@ -1158,7 +1248,7 @@ Definition ex_b : name := [98;49]%N.                              (* "b1" *)
 Definition ex_files : list path := [[ex_sub; ex_a]; [ex_c]].
 Definition ex_f0 : fs :=
   fst (mgr_init [([ex_sub; ex_a], File [1;2;3]%N); ([ex_sub], Dir); ([ex_c], File [7]%N)]).
-Definition ex_f1 : fs := fst (fst (create_backup [] ex_f0 ex_files ex_b ex_ts)).
+Definition ex_f1 : fs := fst (fst (create_backup true [] ex_f0 ex_files ex_b ex_ts)).
 Definition ex_f2 : fs := uapply (UWrite [ex_sub; ex_a] [9]%N) ex_f1.
 
 Lemma ex_hyps :
@@ -1194,7 +1284,7 @@ Lemma stale_manager_overwrites :
   exists (m : mgr) (f : fs) files b ts f' m' file,
     mgr_get m b = None /\
     (exists rec, get_backups f = Ok [(b, rec)]) /\
-    create_backup m f files b ts = (f', m', Ok true) /\
+    create_backup false m f files b ts = (f', m', Ok true) /\
     In file files /\
     read f' (get_backup_path b file) <> read f (get_backup_path b file).
 Proof.
@@ -1205,9 +1295,14 @@ Proof.
   vm_compute. discriminate.
 Qed.
 
+(* the repaired code refuses on the very witness of the defect *)
+Lemma ex_fixed_refuses :
+  create_backup true [] ex_f2 ex_files ex_b ex_ts = (ex_f2, [], Ok false).
+Proof. vm_compute. reflexivity. Qed.
+
 (* restore with a task filter: the file named task_x is restored, the other untouched *)
 Lemma ex_restore_tasks :
-  let m := snd (fst (create_backup [] ex_f0 ex_files ex_b ex_ts)) in
+  let m := snd (fst (create_backup true [] ex_f0 ex_files ex_b ex_ts)) in
   let f2 := uapply (UWrite [ex_c] [8]%N) ex_f2 in
   let f3 := fst (restore_backup m f2 ex_b [[120]%N]) in
   read f3 [ex_sub; ex_a] = Some [1;2;3]%N /\ read f3 [ex_c] = Some [8]%N.
